@@ -1,6 +1,7 @@
 // Includes the repository's testbench source itself; built with -Dmain=hextb_main against the Verilated hex model (prefix Vhex_pkg).
 #include "hextb.cpp"
 #include <verilated_sym_props.h>
+#include <new>
 #include "adapters/tb.hpp"
 
 namespace tb {
@@ -45,4 +46,5 @@ int run(Model &m, bool trace, size_t maxCycles, int *kind, std::string *err) {
   }
 }
 int tb_main(int argc, const char **argv) { return hextb_main(argc, argv); }
+void close_streams() { io.~HexSimIO(); new (&io) hex::HexSimIO(std::cin, std::cout); }
 }  // namespace tb
